@@ -85,6 +85,11 @@ def run(tier: str) -> int:
                 (gen / rel).write_bytes(text)
             else:
                 (gen / rel).write_text(text)
+        # two names that differ only in their Unicode normalisation form (composed / decomposed e-acute) are two files
+        (gen / "uni").mkdir(parents=True, exist_ok=True)
+        (gen / "uni" / "caf\u00e9.py").write_text("def composed(a):\n    return a\n")
+        (gen / "uni" / "cafe\u0301.py").write_text("def decomposed(a):\n    b = a\n    c = b\n    return c\n\n\ndef second(a):\n    return a\n")
+        (gen / "uni" / "plain.py").write_text("def plain(a):\n    return a\n")
         # one file under several names: symbolic links next to their target (one sorts before it, one behind it) and in another
         # directory - which names are reported must not depend on the order in which the walk lists them
         (gen / "lnk" / "far").mkdir(parents=True, exist_ok=True)
